@@ -254,6 +254,11 @@ def save_text(a, style, via, tmpdir=None):
     return f.getvalue()
 
 
+def Atoms_load_text(text, style):
+    from mofun import Atoms
+    return Atoms.load_lmpdat(io.StringIO(text), atom_format=style)
+
+
 def load_text(text, style, via, case_id):
     import os
     import tempfile
@@ -322,6 +327,17 @@ def run_case(case, ctx):
         return
     compare_loaded(b, a, style, fail)
     st.count("files_read_back")
+    # the same file as another program or platform would hand it over: CRLF line ends, tabs between the columns, trailing blanks
+    for vname, vt in (("CRLF line ends", t1.replace("\n", "\r\n")), ("tabs between columns", "\n".join((l.replace("   ", "\t").replace("  ", "\t") if (l[:1].isspace() or l[:1].isdigit()) and "#" not in l else l) for l in t1.split("\n"))),
+                      ("trailing blanks", "\n".join(l + "  " if l.strip() else l for l in t1.split("\n")))):
+        try:
+            bv = Atoms_load_text(vt, style)
+            compare_loaded(bv, a, style, lambda m, c: fail("file with %s: %s" % (vname, m), c), what="read")
+            st.count("reading_variants")
+        except Exception as e:
+            if type(e).__name__ == "PostBroken":
+                raise
+            fail("file with %s: load_lmpdat raised %s: %s" % (vname, type(e).__name__, str(e)[:120]), "variant_raises")
     t2 = save_text(b, style, "method")
     c = load_text(t2, style, "method", 0)
     t3 = save_text(c, style, "method")
